@@ -560,6 +560,23 @@ def canon_impl(impl):
 
 
 # ------------------------------------------------------------------ check
+def gen_float(rng):
+    """valid schedule of arbitrary (non-dyadic) doubles: the clock must match Lean's binary64 `Float` bit for bit"""
+    n = rng.choice([1, 2, 3, 5, 8])
+    start = rng.choice([0.0, rng.uniform(-50, 50), rng.uniform(-1e-3, 1e-3), rng.uniform(-1e6, 1e6)])
+    t, ts = start, []
+    for _ in range(n):
+        t = t + rng.choice([rng.uniform(1e-9, 1e-3), rng.uniform(0.01, 10.0), rng.uniform(1.0, 1e5), 0.1, 1 / 3])
+        if t == 0.0 or (ts and t <= ts[-1]) or t <= start:
+            t = math.nextafter(max(ts[-1] if ts else start, start), math.inf)
+            if t == 0.0:
+                t = 5e-324
+        ts.append(t)
+    c = base_case(rng, start, ts, form=rng.choice(["seq", "tuple", "file_npy", "expr_list"]))
+    c["float"] = True
+    return c
+
+
 def build_cases(rng, tier):
     k = 1 if tier == "quick" else 12
     cases = []
@@ -574,6 +591,8 @@ def build_cases(rng, tier):
         cases.append(("setter", gen_setter(rng)))
     for _ in range(20 * k):
         cases.append(("nonfinite", gen_nonfinite_valid(rng)))
+    for _ in range(40 * k):
+        cases.append(("float", gen_float(rng)))
     return cases
 
 
@@ -582,6 +601,18 @@ def body(ck: common.Check):
     cases = build_cases(ck.rng, ck.tier)
     impls = [run_impl(c) for _, c in cases]  # fills c["_prior_seen"]
     answers = LeanDriver("C02").batch([lean_request(c) for _, c in cases])
+    # arbitrary doubles: the same generic `steps` evaluated at Lean's `Float`, bit for bit
+    fl = [(c, i) for (st, c), i in zip(cases, impls) if st == "float" and "obs" in i]
+    fans = LeanDriver("C02").batch([{"op": "floatclock", "start": common.float_bits(fx(c["start"])),
+                                     "times": [common.float_bits(v) for v in src_values(c["src"])]} for c, _ in fl])
+    for (c, i), a in zip(fl, fans):
+        if "bad" in a:
+            raise common.InfraError(f"driver rejected request: {a}")
+        got_steps = [common.float_bits(xf(o[1])) for o in i["obs"]]
+        got_abs = [common.float_bits(xf(o[2])) for o in i["obs"]]
+        ck.evaluations += 1
+        if got_steps != a["steps"] or got_abs != a["abs"]:
+            ck.disagreement("float-bits", {k: v for k, v in c.items() if not k.startswith("_")}, [got_steps, got_abs], [a["steps"], a["abs"]])
     for (stream, case), impl, ans in zip(cases, impls, answers):
         if "bad" in ans:
             raise common.InfraError(f"driver rejected request: {ans} for {case}")
@@ -601,6 +632,11 @@ def body(ck: common.Check):
         if why is not None:
             ck.violation(why[0], why[1], replay)
         mine, model = canon_impl(impl), ans["model"]
+        if stream == "float" and "obs" in mine and "obs" in model:
+            # arbitrary doubles: the rational model's `t − prev` / `start + t` are the *unrounded* values; these two
+            # fields are compared with the `Float` model instead (bit for bit, above)
+            mask = lambda obs: [[o[0], None, None] + o[3:] for o in obs]  # noqa: E731
+            mine, model = {"obs": mask(mine["obs"])}, {"obs": mask(model["obs"])}
         if mine != model:
             ck.disagreement(stream, public, mine, model)
         # harness self-check: the Python reading of "valid" and the Lean `ValidSpec` must coincide
@@ -614,7 +650,8 @@ def body(ck: common.Check):
                "(zero first/later/last, equal, decreasing, start ≥ first, NaN anywhere, inf inside, empty, both sources), setter "
                "calls after construction; destructive / non-destructive; random per-step writes to all six buckets (set, "
                "accumulate, clear, charge clusters); prior content: direct fill and/or an earlier run on the same detector; "
-               "non-trivial = ≥ 2 steps or a rejection; distinct by canonical JSON")
+               "a stream of arbitrary (non-dyadic) doubles whose time steps / absolute times are compared bit for bit with the "
+               "same `steps` evaluated at Lean's binary64 Float; non-trivial = ≥ 2 steps or a rejection; distinct by canonical JSON")
     ck.assumptions = [
         "valid schedule (DESIGN 6b): non-empty, every time ≠ 0, start < every time (NaN is not earlier than anything), strictly increasing; +inf as last time is valid",
         "containers are empty: scene/photon/signal/image hold nothing; charge holds an all-zero array and no clusters",
